@@ -241,6 +241,44 @@ slice_harnesses!(t_isize, isize, |x: isize| x as usize as u64);
 slice_harnesses!(t_f32, f32, |x: f32| x.to_bits() as u64);
 slice_harnesses!(t_f64, f64, |x: f64| x.to_bits());
 slice_harnesses!(t_bool, bool, |x: bool| x as u64);
+// zero-sized element types: the statement says "every element type"; a view of N zero-sized elements still has length N
+macro_rules! zst_harnesses {
+    ($modname:ident, $t:ty, $v:expr) => {
+        mod $modname {
+            use super::*;
+            type T = $t;
+            // pointer identity is meaningless for zero-sized elements; the length must survive every conversion
+            #[kani::proof]
+            #[kani::unwind(6)]
+            fn zst_lengths_roundtrip() {
+                let arr: [T; N] = [$v; N];
+                let len: usize = kani::any();
+                kani::assume(len <= N);
+                let v: DiplomatSlice<T> = (&arr[..len]).into();
+                let raw: RawView<T> = unsafe { core::mem::transmute_copy(&v) };
+                assert!(raw.len == len && (&*v).len() == len);
+                let back: &[T] = v.into();
+                assert!(back.len() == len);
+                let b: Box<[T]> = match len {
+                    0 => Box::new([]) as Box<[T]>,
+                    1 => Box::new([$v]) as Box<[T]>,
+                    2 => Box::new([$v, $v]) as Box<[T]>,
+                    3 => Box::new([$v, $v, $v]) as Box<[T]>,
+                    _ => Box::new([$v; N]) as Box<[T]>,
+                };
+                let mut o: DiplomatOwnedSlice<T> = b.into();
+                let rawo: RawView<T> = unsafe { core::mem::transmute_copy(&o) };
+                assert!(rawo.len == len, "C16: owned view of zero-sized elements must keep its length");
+                assert!((&*o).len() == len && (&mut *o).len() == len);
+                let bb: Box<[T]> = o.into();
+                assert!(bb.len() == len, "C16: boxed slice of zero-sized elements must keep its length through the owned view");
+                kani::cover!(len == N);
+            }
+        }
+    };
+}
+zst_harnesses!(t_unit, (), ());
+zst_harnesses!(t_zst_array, [u32; 0], []);
 
 // ---- strings -------------------------------------------------------------------------------
 
